@@ -220,11 +220,43 @@ def rule_state(ctx):
                 fields |= set(bc.fields)
         methods = set(c.methods)
         bad = []
+        # attributes computed once in __post_init__ from the fields are configuration as well, as long as nothing writes into them later
+        # (a table of log frequencies is fine; a dictionary handed to a sampler that stores into it is a cache that outlives the fit)
+        derived = set()
+        pi = c.methods.get('__post_init__')
+        if pi is not None:
+            for n in ast.walk(pi.node):
+                if isinstance(n, ast.Attribute) and isinstance(n.ctx, ast.Store) and isinstance(n.value, ast.Name) and n.value.id == 'self':
+                    derived.add(n.attr)
+        from ..model import bind_args
+        mutated = set()
+        for mname, mf in c.methods.items():
+            for n in ast.walk(mf.node):
+                if isinstance(n, ast.Call):
+                    q = ctx.prog.resolve_call(mf, n)
+                    cf = ctx.prog.funcs.get(q)
+                    if cf is not None and ctx.eff.mutates.get(q):
+                        b = bind_args(cf, n)
+                        for pname in ctx.eff.mutates[q]:
+                            a = b.get(pname)
+                            if isinstance(a, ast.Attribute) and isinstance(a.value, ast.Name) and a.value.id == 'self':
+                                mutated.add(a.attr)
+                    if isinstance(n.func, ast.Attribute) and n.func.attr in ('append', 'extend', 'update', 'clear', 'pop', 'setdefault', 'sort', 'fill') \
+                            and isinstance(n.func.value, ast.Attribute) and isinstance(n.func.value.value, ast.Name) and n.func.value.value.id == 'self':
+                        mutated.add(n.func.value.attr)
+                if isinstance(n, (ast.Assign, ast.AugAssign)):
+                    for t in (n.targets if isinstance(n, ast.Assign) else [n.target]):
+                        if isinstance(t, ast.Subscript) and isinstance(t.value, ast.Attribute) and isinstance(t.value.value, ast.Name) and t.value.value.id == 'self':
+                            mutated.add(t.value.attr)
         for mname, mf in sorted(c.methods.items()):
             for n in ast.walk(mf.node):
                 if isinstance(n, ast.Attribute) and isinstance(n.value, ast.Name) and n.value.id == 'self':
                     if isinstance(n.ctx, ast.Store):
-                        bad.append(f"{mname} assigns self.{n.attr} (line {n.lineno})")
+                        if mname != '__post_init__':
+                            bad.append(f"{mname} assigns self.{n.attr} (line {n.lineno})")
+                    elif n.attr in derived:
+                        if n.attr in mutated:
+                            bad.append(f"self.{n.attr}, created in __post_init__, is written into later (line {n.lineno}): it outlives the fit that filled it")
                     elif n.attr not in fields and n.attr not in methods and not n.attr.startswith('__'):
                         bad.append(f"{mname} reads self.{n.attr}, which is not a declared field (line {n.lineno})")
             for w in ctx.eff.self_writes[mf.qname]:
